@@ -446,7 +446,7 @@ _VOLX = r"        return abs\(np\.linalg\.det\(cellvecs\)\)"
 M("C20", "volume-orthogonal-shortcut-first-superdiagonal", "iodata/utils.py", _VOLX, "        gram = np.dot(cellvecs, cellvecs.T)\n        if not np.diagonal(gram, offset=1).any():\n            return np.sqrt(np.diagonal(gram).prod())\n        return abs(np.linalg.det(cellvecs))", "C20-R3")
 T("C20", "volume-orthogonal-shortcut-all-offdiagonals", "iodata/utils.py", _VOLX, "        gram = np.dot(cellvecs, cellvecs.T)\n        if not (gram - np.diag(np.diagonal(gram))).any():\n            return np.sqrt(np.diagonal(gram).prod())\n        return abs(np.linalg.det(cellvecs))")
 M("C20", "four-index-skips-zero", "iodata/utils.py", r"(def set_four_index_element\([^)]*\):\n(?:    .*\n|\n)*?    \"\"\"\n)", r"\1    if value == 0.0:\n        return\n", "C20-R1")
-M("C11", "charge-getter-truth-test", "iodata/iodata.py", r"        if self\.atcorenums is None or self\.nelec is None:\n            return None\n        return self\.atcorenums\.sum\(\) - self\.nelec", "        if self.atcorenums is None or not self.nelec:\n            return None\n        return self.atcorenums.sum() - self.nelec", "C11-R7")
+M("C11", "charge-getter-truth-test", "iodata/iodata.py", r"        if self\.atcorenums is None or self\.nelec is None:\n            return self\._charge\n", "        if self.atcorenums is None or not self.nelec:\n            return self._charge\n", "C11-R7")
 M("C11", "charge-setter-rounds", "iodata/iodata.py", r"            self\.nelec = self\.atcorenums\.sum\(\) - charge", "            self.nelec = float(np.round(self.atcorenums.sum() - charge))", "C11-R7")
 M("C12", "occsa-setter-keeps-callers-array", "iodata/orbitals.py", r"            occsa = np\.array\(occsa\)", "            occsa = np.asarray(occsa)", "C12-R4")
 T("C12", "occsa-setter-copies-explicitly", "iodata/orbitals.py", r"            occsa = np\.array\(occsa\)", "            occsa = np.asarray(occsa).copy()")
